@@ -1872,3 +1872,66 @@ def exact_unit_division(run, R="ALIGN"):
                 bad.append("%s (%s)" % (f.loc(st["span"]), f.id.rsplit("::", 1)[-1]))
     run.check(n >= 2 and not bad, R, R + "|unit-division|exact", "-", "every division by a bank's address unit has the remainder of the same operands taken next to it (%d site(s))" % n,
               "a bit position or size is divided by the bank's address unit without the remainder being looked at: %s: an item that ends inside an address unit is rounded down (a full bank plus a 4-bit item passes the range test; `#align` after a 4-bit item pads from the rounded position)" % (", ".join(bad) or "division sites not found"))
+
+
+def symbol_listing_visits_all(run, R="MPT"):
+    """a symbol listing names every declared symbol: the walk over the symbol tree (`format_recursive`) descends into the children
+    of every symbol - the recursive call is reached on every path through the loop body, so no `continue` (for a value of another
+    kind, a suppressed symbol, ...) cuts off a subtree"""
+    from mir import natural_loop
+    fs = [f for f in run.prog.real_fns() if f.kind != "Closure" and f.id.endswith("::format_recursive") and "symbol_format" in f.id]
+    if len(fs) != 1:
+        run.violation(R, R + "|symbols|visits-all", "-", "mechanism not found: the recursive walk of the symbol formatter")
+        return
+    f = fs[0]
+    rec = {bi for bi, t in f.calls() if (t.get("resolved") or "") == f.id}
+    # the loop over the children: the header is the block of the `next()` call of a loop that contains the recursive call
+    ok, why = False, "no loop around the recursive call"
+    for h in sorted(f.reachable()):
+        loop = natural_loop(f, h)
+        if not loop or not (rec & loop):
+            continue
+        nexts = [bi for bi, t in f.calls() if bi in loop and (t.get("callee") or "").endswith("Iterator::next")]
+        if not nexts:
+            continue
+        # from the `Some` edge of the iteration, every way back to the header passes the recursive call
+        seen, work = set(), [x for x in f.succs(h) if x in loop] if h not in nexts else []
+        start = nexts[0]
+        seen, work = set(), list(f.succs(start))
+        escaped = False
+        while work:
+            x = work.pop()
+            if x in seen or x in rec or x not in loop:
+                continue
+            seen.add(x)
+            for y in f.succs(x):
+                if y == start or (y == h and h != start):
+                    # back at the top of the loop without having met the recursive call - unless this is the `None` exit path
+                    escaped = True
+                work.append(y)
+        # the path through `None` leaves the loop, it never returns to the header; any return to the header counts
+        ok = not escaped
+        why = "a path through the loop body returns to the top of the loop without the recursive call"
+        break
+    run.check(ok, R, R + "|symbols|visits-all", f.loc(), "the symbol walk descends into the children of every symbol",
+              "format_recursive: %s: the symbols nested under a skipped symbol (a constant holding a string, a suppressed label) are missing from the listing" % why)
+
+
+def blocks_in_output_order(run, R="MPT"):
+    """the blocks of the output are found by walking the emitted items in the order of their output offset: the comparator of the
+    sort in get_blocks reads the `offset` of both items and nothing else"""
+    import json
+    from mir import closure_of_origin
+    f = run.anchor(R, "util::bitvec::BitVec::get_blocks")
+    if f is None:
+        return
+    fields = None
+    for bi, t in f.calls():
+        if re.search(r"::(sort_by|sort_by_key|sort_unstable_by|sort_unstable_by_key|sort_by_cached_key)(::<.*)?$", t.get("callee") or "") and len(t["args"]) == 2:
+            cid = closure_of_origin(f.origin_op(t["args"][1]))
+            g = run.prog.fn(cid) if cid else None
+            if g is not None:
+                fields = set(re.findall(r'"name": "(\w+)"', json.dumps(g.raw.get("blocks"))))
+                fields = {x for x in fields if not x.isdigit()}
+    run.check(fields == {"offset"}, R, R + "|get-blocks|sorted-by-offset", f.loc(), "get_blocks walks the items sorted by their output offset",
+              ("get_blocks sorts the emitted items by %s, not by their output offset: with banks whose addresses are not in the order of their output offsets, neighbouring items are not recognised as one block and blocks come out in the wrong order (Intel HEX records dropped or misplaced)" % sorted(fields)) if fields is not None else "mechanism not found: the sort of the emitted items in get_blocks")
